@@ -229,7 +229,8 @@ class SystemClock(Clock, metaclass=MetaSystemClock):
                         _libsc3.main._in_awake_call = True
                         delta = task.__awake__(cls)
                         if isinstance(delta, (int, float))\
-                        and not isinstance(delta, bool):
+                        and not isinstance(delta, bool)\
+                        and delta != float('inf'):  # As in sched.
                             time = sched_time + delta
                             cls._sched_add(time, task)
                     except stm.StopStream:
@@ -319,7 +320,9 @@ class Scheduler():
             _libsc3.main._update_logical_time(self._seconds)
             _libsc3.main._in_awake_call = True
             delta = item.__awake__(self._clock)
-            if isinstance(delta, (int, float)) and not isinstance(delta, bool):
+            if isinstance(delta, (int, float))\
+            and not isinstance(delta, bool)\
+            and delta != float('inf'):  # As in sched.
                 self._sched_add(delta, item)
         except stm.StopStream:
             pass
@@ -572,7 +575,9 @@ class ClockTask():
             _libsc3.main._update_logical_time(time)
             beats = self.clock.secs2beats(time)
             delta = self.task.__awake__(self.clock)
-            if isinstance(delta, (int, float)) and not isinstance(delta, bool):
+            if isinstance(delta, (int, float))\
+            and not isinstance(delta, bool)\
+            and delta != float('inf'):  # As in sched.
                 ClockTask(beats + delta, self.clock, self.task, self.scheduler)
         except stm.StopStream:
             pass
@@ -866,7 +871,8 @@ class TempoClock(Clock, metaclass=MetaTempoClock):
                         _libsc3.main._in_awake_call = True
                         delta = task.__awake__(self)
                         if isinstance(delta, (int, float))\
-                        and not isinstance(delta, bool):
+                        and not isinstance(delta, bool)\
+                        and delta != float('inf'):  # As in sched.
                             time = self._beats + delta
                             self._sched_add(time, task)
                     except stm.StopStream:
